@@ -17,22 +17,26 @@ LEVEL = ("effect-scope clauses (two-run comparisons are not decided): plumbing C
          "what is emitted); tags keep document order, every collection receives the endpoint object itself and the builder renders each "
          "endpoint module from that endpoint; the package name follows the project name in effect.")
 
-# who may read each option (functions / templates), from the README's Configuration section
+# who may read each option (functions / templates), from the README's Configuration section.  The readers are the public entry points
+# the documentation speaks about (the generate function that fetches the document, Project.__init__ that names things, Project.build
+# that lays out / writes / post-processes the package, the parser function that decides the representation); where Project.build
+# delegates to a stage method of its own, the stage that is documented for the option is named as well, so that the other stages (models,
+# api) stay closed to it.  A read inside any other private helper belongs to whoever calls the helper.
 ALLOWED = {
-    "meta_type": {"Project.__init__", "Project._create_package", "Project._build_metadata", "Project._build_pyproject_toml",
-                  "config.Config.from_sources", "cli._process_config", "cli.generate"},
+    "meta_type": {"Project.__init__", "Project.build", "Project._create_package", "Project._build_metadata", "Project._build_pyproject_toml",
+                  "config.Config.from_sources", "cli.generate"},
     "class_overrides": {"parser.properties.schemas.Class.from_string", "config.Config.from_sources"},
     "project_name_override": {"Project.__init__", "config.Config.from_sources"},
     "package_name_override": {"Project.__init__", "config.Config.from_sources"},
     "package_version_override": {"Project.__init__", "config.Config.from_sources"},
     "use_path_prefixes_for_title_model_names": {"parser.properties.model_property.ModelProperty.build", "config.Config.from_sources"},
-    "post_hooks": {"Project._run_post_hooks", "config.Config.from_sources"},
+    "post_hooks": {"Project.build", "Project._run_post_hooks", "config.Config.from_sources"},
     "docstrings_on_attributes": {"model.py.jinja", "client.py.jinja", "config.Config.from_sources"},
     "field_prefix": {"*name-constructor-argument*", "config.Config.from_sources"},
     "generate_all_tags": {"parser.openapi.EndpointCollection.from_data", "config.Config.from_sources"},
-    "http_timeout": {"_get_project_for_url_or_path", "config.Config.from_sources"},
+    "http_timeout": {"generate", "config.Config.from_sources"},
     "literal_enums": {"parser.properties.property_from_data", "config.Config.from_sources"},
-    "document_source": {"_get_project_for_url_or_path"},
+    "document_source": {"generate"},
     "file_encoding": {"*encoding-argument*"},
     "content_type_overrides": {"utils.get_content_type", "config.Config.from_sources"},
     "overwrite": {"Project.build"},
@@ -52,8 +56,9 @@ def run(rep: Report, ctx: Any) -> str:
     rep.rule("R16.1", "plumbing is the identity, decided per path on the value that arrives (symbolic execution of from_sources, "
                       "_process_config and generate with their private helpers inlined): every ConfigFile field reaches the Config field "
                       "of the same name (another value only where the file's value `is None`, or an empty container where it is falsy), "
-                      "every CLI option reaches the same-named parameter unmodified, the config file named on the command line is loaded "
-                      "whenever one is named")
+                      "every option of the generate command reaches the same-named from_sources parameter unmodified (the document "
+                      "source is the url or the path option itself, however it is picked), the config file named on the command line is "
+                      "loaded whenever one is named")
     rep.rule("R16.2", "every read of a Config field happens in the function/template documented for that option (a read inside a private "
                       "helper that has no documented effect of its own belongs to the functions that call the helper; field_prefix / "
                       "file_encoding are documented by where their value ends up - the prefix of a name constructor, the encoding of a "
@@ -74,6 +79,11 @@ def run(rep: Report, ctx: Any) -> str:
                       "get_content_type (private helpers inlined, executed symbolically: `.get(k, ...)`, `[k]`, `k in`, `k == <one of its keys>`) "
                       "uses as k the media-type parameter itself - not something computed from it, which would match other entries than "
                       "the ones the user wrote")
+
+    rep.rule("R16.7", "literal_enums changes the representation only: the property classes property_from_data (private helpers inlined, executed "
+                      "symbolically) constructs on the paths where the option is on and on the paths where it is off present the same interface "
+                      "to the templates that generate code around a property - the same set of exported macros in their property templates (callers "
+                      "test for a macro's presence and fall back to generic code when it is missing) and the same allowed parameter locations")
 
     cfgc = ix.cls("Config")
     cff = ix.cls("ConfigFile")
@@ -173,6 +183,7 @@ def run(rep: Report, ctx: Any) -> str:
     rep.floor("name_constructor_sites", n_pi, 12)
     _r163_media_types(rep, ix)
     _r166_override_key(rep, ix, cfgc)
+    _r167_switched_classes(rep, ix, ctx.jinja)
     # ---- R16.4 --------------------------------------------------------------------------------------------------------------
     _r164_tags(rep, ix, callers)
     _r164_builder(rep, ix)
@@ -363,16 +374,18 @@ def _last(c: ast.Call) -> str:
     return call_name(c).rsplit(".", 1)[-1]
 
 
-def _expand_argument_helpers(sx: "SymExec") -> None:
-    """a private helper called in argument position (`xs.append(_make(...))`) is executed as well, so that the calls it makes are seen with
-    the caller's values"""
-    i = 0
+def _expand_helper_calls(sx: "SymExec") -> None:
+    """a helper (private function, closure) called anywhere inside an expression - as an argument, in a test, as the element or the filter
+    of a comprehension - is executed as well, with the values its arguments have there, so that the calls it makes and the tests it takes
+    are seen in terms of the entry point's inputs.  (A helper called as a statement / assigned / returned is inlined by the executor.)"""
+    i, done = 0, set()
     while i < len(sx.hits) and i < 4000:
         conds, call, g = sx.hits[i]
         i += 1
-        for a in [*call.args, *[k.value for k in call.keywords]]:
-            if sx._helper(a, g) is not None:
-                sx.values(a, State({}, tuple(conds)), g, 1)
+        for a in [call, *call.args, *[k.value for k in call.keywords]]:
+            if sx._helper(a, g) is not None and (g.qual, norm(a)) not in done:
+                done.add((g.qual, norm(a)))
+                sx.values(a, State(dict(sx.hit_env.get(id(call), {})), tuple(conds)), g, 1)
 
 
 def _decisions_on(e: ast.AST, is_key: Any) -> list[str]:
@@ -438,10 +451,10 @@ def _r163_media_types(rep: Report, ix: Any) -> None:
         f = ix.func(fname)
         sx = SymExec(ix, watch=lambda c: True, record=True)
         sx.run(f)
-        _expand_argument_helpers(sx)
+        _expand_helper_calls(sx)
         cls_hits = [(call, g) for _, call, g in sx.hits if _last(call) == _CLASSIFIER]
         at = cls_hits[0][1] if cls_hits else next((g for g in region(ix, f) if any(_last(c) == _CLASSIFIER for c in ast.walk(g.node) if isinstance(c, ast.Call))), f)
-        rep.check(bool(cls_hits), "R16.3", f"{short(at)}::classifies-through-get_content_type", "media types are not classified through get_content_type",
+        rep.check(bool(cls_hits), "R16.3", f"{short(f)}::classifies-through-get_content_type", "media types are not classified through get_content_type",
                   where(at, at.node))
         if not cls_hits:
             continue
@@ -473,7 +486,7 @@ def _r163_media_types(rep: Report, ix: Any) -> None:
                 continue
             seen.add(id(e))
             bad |= set(_decisions_on(e, is_key))
-        rep.check(not bad, "R16.3", f"{short(at)}::classification-uses-overridden-type",
+        rep.check(not bad, "R16.3", f"{short(f)}::classification-uses-overridden-type",
                   f"the raw media type key is tested directly ({sorted(bad)[:4]}): content_type_overrides has no effect on this decision", where(at, at.node),
                   lhs=sorted(bad), rhs="only the result of get_content_type(<key>) is tested")
         if fname.startswith("bodies."):
@@ -554,15 +567,7 @@ def _r166_override_key(rep: Report, ix: Any, cfgc: Any) -> None:
 
     sx = SymExec(ix, watch=lambda c: True, record=True)
     sx.run(f)
-    # a private helper called anywhere (in a test, as an argument) is executed with the caller's values as well
-    i, done = 0, set()
-    while i < len(sx.hits) and i < 4000:
-        conds, call, g = sx.hits[i]
-        i += 1
-        for a in [call, *call.args, *[k.value for k in call.keywords]]:
-            if sx._helper(a, g) is not None and (g.qual, norm(a)) not in done:
-                done.add((g.qual, norm(a)))
-                sx.values(a, State({}, tuple(conds)), g, 1)
+    _expand_helper_calls(sx)
     exprs: list[ast.AST] = list(sx.recorded or [])
     for conds, call, _ in sx.hits:
         exprs += [e for e, _ in conds] + [call]
@@ -578,6 +583,88 @@ def _r166_override_key(rep: Report, ix: Any, cfgc: Any) -> None:
               f"content_type_overrides is consulted with {wrong[:3]} instead of the media type as the document spells it: an override whose key "
               "differs from that computed form is never found, and the media type is classified by its own name", where(f, f.node),
               lhs=wrong or key_param, rhs=f"<config>.{_OVERRIDES} looked up by `{key_param}` itself")
+
+
+# ---- R16.7: the classes an option switches between ----------------------------------------------------------------------------------
+
+def _r167_switched_classes(rep: Report, ix: Any, jx: Any) -> None:
+    """`literal_enums` makes property_from_data build another property class for the same schema.  Everything the generated code does with a
+    property goes through the macros of the class's template - and the templates around it (endpoint, model) ask whether a macro exists
+    (`if <template>.transform_header`) and emit generic code when it does not - and through the locations the class may appear in.  The
+    option therefore changes behaviour, not just representation, as soon as the two classes differ in which macros their templates define
+    or in where they are allowed.  The classes are found by following the option: the property classes constructed on paths whose
+    condition forces `<config>.literal_enums` true / false."""
+    option = "literal_enums"
+    pfd = ix.func("parser.properties.property_from_data")
+    classes = {c.name: c for c in ix.property_classes()}
+
+    def made(c: ast.Call) -> list[tuple[tuple, str]]:
+        """(condition, class) for each property class the call constructs: `C(...)` / `C.build(...)`, C possibly chosen by a conditional"""
+        tgt = c.func.value if isinstance(c.func, ast.Attribute) and c.func.attr == "build" else c.func
+        return [(tuple(ac), av.id) for ac, av in alternatives(tgt) if isinstance(av, ast.Name) and av.id in classes]
+
+    sx = SymExec(ix, watch=lambda c: True)
+    sx.run(pfd)
+    _expand_helper_calls(sx)
+    sides: dict[bool, set[str]] = {True: set(), False: set()}
+    for conds, call, _ in sx.hits:
+        for ac, cname in made(call):
+            # the tests that mention the option, and those that share an atom with them, decide; leaving the others out only weakens
+            # the premise
+            allc = [(c, frozenset(_atoms_of(c[0]))) for c in tuple(conds) + ac]
+            mine = {a for c, ats in allc for a in ats if a[1].rsplit(".", 1)[-1] == option}
+            while True:
+                more = {a for c, ats in allc if ats & mine for a in ats} - mine
+                if not more or len(mine | more) > 12:
+                    break
+                mine |= more
+            rel = tuple(c for c, ats in allc if ats and ats <= mine)
+            if not rel or not consistent(rel):
+                continue
+            atoms: list = []
+            for e, _p in rel:
+                _atoms(e, atoms)
+            for a in atoms:
+                if a[0] == "truthy" and a[1].rsplit(".", 1)[-1] == option:
+                    for val in (True, False):
+                        if implies(rel, a, val):
+                            sides[val].add(cname)
+    on, off = sides[True] - sides[False], sides[False] - sides[True]
+    rep.require(on and off, f"the property classes property_from_data constructs when <config>.{option} is on / off")
+    pairs = [(a, b) for a in sorted(on) for b in sorted(off)]
+    rep.floor("literal_enums_class_pairs", len(pairs), 1)
+
+    def template_of(name: str) -> Any:
+        tv = ix.find_classvar(classes[name], "template")
+        tname = ix.const_str(tv[0].module, tv[1]) if tv else None
+        ti = jx.templates.get("property_templates/" + (tname or ""))
+        rep.require(ti is not None, f"the property template of {name}")
+        return ti
+
+    def locations_of(name: str) -> set[str] | None:
+        al = ix.find_classvar(classes[name], "_allowed_locations")
+        if al is None or not isinstance(al[1], (ast.Set, ast.List, ast.Tuple)):
+            return None
+        return {norm(x).rsplit(".", 1)[-1] for x in al[1].elts}
+
+    for a, b in pairs:
+        # what a template offers to the templates that import it: Jinja exports the top-level names that do not start with `_`
+        ma, mb = (_exported_names(template_of(x).tree) for x in (a, b))
+        rep.check(ma == mb, "R16.7", f"{option}::{b}|{a}::same-template-macros",
+                  f"the templates of {a} ({option} on) and {b} (off) do not define the same macros: for {sorted(ma ^ mb)} the surrounding "
+                  f"templates emit the class's own code under one setting and the generic fallback under the other - the option changes behaviour",
+                  where=f"{PKG}/templates/{template_of(a if mb - ma else b).name}", lhs=sorted(ma), rhs=sorted(mb))
+        la, lb = locations_of(a), locations_of(b)
+        rep.require(la is not None and lb is not None, f"_allowed_locations of {a} and {b} as a display of locations")
+        rep.check(la == lb, "R16.7", f"{option}::{b}|{a}::same-allowed-locations",
+                  f"{a} ({option} on) and {b} (off) are not allowed in the same parameter locations ({sorted(la ^ lb)}): a document accepted under "
+                  "one setting is rejected under the other", where=f"{PKG}/parser/properties", lhs=sorted(la), rhs=sorted(lb))
+
+
+def _exported_names(tree: Any) -> set[str]:
+    """the macros a template module offers to the templates that import it: those defined at the top level of the file whose name does
+    not start with `_` (Jinja exports nothing else; a macro nested in another one or named `_x` is the file's own business)"""
+    return {n.name for n in tree.body if type(n).__name__ == "Macro" and not n.name.startswith("_")}
 
 
 # ---- R16.4: tags --------------------------------------------------------------------------------------------------------------------
@@ -886,64 +973,97 @@ def _empty_literal_of(v: ast.AST, ann: ast.AST | None) -> bool:
     return kind is not None and kind in a
 
 
+def _selections(e: ast.AST) -> set[str] | None:
+    """the expressions e can evaluate to when it only CHOOSES among values and computes nothing: a conditional expression, `and` / `or`,
+    `:=`, an element (any index, `next(...)`) of a display, of a comprehension that passes (some of) its elements through, of
+    list / tuple / sorted / reversed / filter / iter of one.  None when something is computed from a value on the way."""
+    if isinstance(e, (ast.Name, ast.Attribute, ast.Constant)):
+        return {norm(e)}
+    if isinstance(e, ast.NamedExpr):
+        return _selections(e.value)
+    if isinstance(e, ast.IfExp):
+        parts = [_selections(e.body), _selections(e.orelse)]
+    elif isinstance(e, ast.BoolOp):
+        parts = [_selections(v) for v in e.values]
+    elif isinstance(e, ast.Subscript) and not isinstance(e.slice, ast.Slice):
+        parts = [_elements(e.value)]
+    elif isinstance(e, ast.Call) and call_name(e) == "next" and 1 <= len(e.args) <= 2 and not e.keywords:
+        parts = [_elements(e.args[0]), *[_selections(d) for d in e.args[1:]]]
+    else:
+        return None
+    return None if any(x is None for x in parts) else set().union(*parts)
+
+
+def _elements(e: ast.AST) -> set[str] | None:
+    """what the elements of a collection can be (see _selections)"""
+    if isinstance(e, (ast.Tuple, ast.List, ast.Set)):
+        parts = [_elements(x.value) if isinstance(x, ast.Starred) else _selections(x) for x in e.elts]
+    elif isinstance(e, (ast.ListComp, ast.SetComp, ast.GeneratorExp)):
+        parts = [_selections(e.elt)]  # comprehension variables already read as elements of what is iterated
+    elif isinstance(e, ast.Call) and call_name(e) in ("list", "tuple", "sorted", "reversed", "iter", "set", "frozenset") and len(e.args) == 1 and \
+            all(k.arg in ("key", "reverse") for k in e.keywords):
+        parts = [_elements(e.args[0])]
+    elif isinstance(e, ast.Call) and call_name(e) == "filter" and len(e.args) == 2 and not e.keywords:
+        parts = [_elements(e.args[1])]
+    elif isinstance(e, ast.Subscript) and isinstance(e.slice, ast.Slice):
+        parts = [_elements(e.value)]
+    elif isinstance(e, (ast.IfExp, ast.BoolOp, ast.NamedExpr)):
+        alts = [e.body, e.orelse] if isinstance(e, ast.IfExp) else e.values if isinstance(e, ast.BoolOp) else [e.value]
+        parts = [_elements(x) for x in alts]
+    else:
+        return None
+    return None if any(x is None for x in parts) else set().union(*parts)
+
+
+# from_sources parameter <- the option(s) of the generate command it is taken from (same name unless listed)
+_CLI_OPTION_OF = {"meta_type": ("meta",), "document_source": ("url", "path")}
+
+
 def _r161_cli(rep: Report, ix: Any, fs: Any) -> None:
-    """CLI option -> _process_config parameter -> from_sources parameter, on every path that reaches the respective call"""
+    """CLI option -> Config.from_sources parameter: the generate command is executed symbolically with the private helpers it delegates to
+    inlined, so that on every path that reaches Config.from_sources(...) each argument is written in terms of the command's own options -
+    whatever helpers, locals and tests lie in between.  Each must be the option itself (for the document source: the url or the path
+    option, whichever way it is picked), the configuration file the one loaded from --config."""
     cg = ix.func("cli.generate")
-    pc = ix.func("cli._process_config")
-    # generate(...) -> _process_config(...)
-    sx = SymExec(ix, watch=lambda c: call_name(c).rsplit(".", 1)[-1] == pc.name)
+    sx = SymExec(ix, watch=lambda c: _last(c) == fs.name, inline_depth=3)
     sx.run(cg)
-    hits = [(c, call) for c, call, _ in sx.hits if consistent(c)]
-    rep.require(hits, "_process_config call")
-    gparams = {p.arg for p in cg.params}
-    seen: dict[str, list[str]] = {}
-    for conds, call in hits:
-        rep.require(not any(isinstance(a, ast.Starred) for a in call.args) and all(k.arg for k in call.keywords), "_process_config(...) with explicit arguments")
-        for name, v in _bind_call(call, pc).items():
-            want = {"meta_type": "meta"}.get(name, name)
-            ok = isinstance(v, ast.Name) and v.id == want and want in gparams
-            seen.setdefault(name, []).extend([] if ok else [norm(v)])
-    for name, wrong in seen.items():
-        want = {"meta_type": "meta"}.get(name, name)
-        rep.check(not wrong, "R16.1", f"cli.generate::{name}", "CLI option not forwarded verbatim", where(cg, hits[0][1]), lhs=wrong or want, rhs=want)
-    # _process_config(...) -> Config.from_sources(...)
-    sx = SymExec(ix, watch=lambda c: call_name(c).rsplit(".", 1)[-1] == fs.name)
-    sx.run(pc)
-    hits = [(c, call) for c, call, _ in sx.hits if consistent(c)]
-    rep.require(hits, "from_sources call")
-    pparams = {p.arg for p in pc.params}
+    hits = [(c, call, g) for c, call, g in sx.hits if consistent(c)]
+    rep.require(hits, "a call of Config.from_sources reached from the generate command (private helpers inlined)")
+    options = {p.arg for p in cg.params}
     cffn = "ConfigFile"
     got: dict[str, list[tuple[str, str]]] = {}
-    for conds, call in hits:
+    for conds, call, g in hits:
         rep.require(not any(isinstance(a, ast.Starred) for a in call.args) and all(k.arg for k in call.keywords), "from_sources(...) with explicit arguments")
         for name, v0 in _bind_call(call, fs).items():
             wrong = got.setdefault(name, [])
-            for st, v in sx.values(v0, State({}, tuple(conds)), pc, 0):  # a helper called in argument position is inlined as well
+            # a helper called in argument position is inlined as well
+            for st, v in sx.values(v0, State(dict(sx.hit_env.get(id(call), {})), tuple(conds)), g, 1):
                 if not consistent(st.conds):
                     continue
-                if name == "document_source":
-                    # on every path, the url option or the path option itself
-                    ok = isinstance(v, ast.Name) and v.id in ("url", "path") and v.id in pparams
-                elif name == "config_file":
+                if name == "config_file":
                     # the file named by --config loaded as it is, or (only when none is named) an empty ConfigFile
-                    loaded = isinstance(v, ast.Call) and call_name(v) == f"{cffn}.load_from_path" and \
-                        [norm(a) for a in v.args] + [f"{k.arg}={norm(k.value)}" for k in v.keywords] in (["config_path"], ["path=config_path"])
-                    empty = isinstance(v, ast.Call) and call_name(v) == cffn and not v.args and not v.keywords and \
-                        implies(st.conds, ("truthy", "config_path"), False)
-                    ok = "config_path" in pparams and (loaded or empty)
+                    ok = "config_path" in options
+                    for ac, av in alternatives(v):
+                        allc = tuple(st.conds) + tuple(ac)
+                        if not consistent(allc):
+                            continue
+                        loaded = isinstance(av, ast.Call) and call_name(av) == f"{cffn}.load_from_path" and \
+                            [norm(a) for a in av.args] + [f"{k.arg}={norm(k.value)}" for k in av.keywords] in (["config_path"], ["path=config_path"])
+                        empty = isinstance(av, ast.Call) and call_name(av) == cffn and not av.args and not av.keywords and \
+                            implies(allc, ("truthy", "config_path"), False)
+                        ok = ok and (loaded or empty)
                 else:
-                    ok = isinstance(v, ast.Name) and v.id == name and name in pparams
+                    want = set(_CLI_OPTION_OF.get(name, (name,)))
+                    sel = _selections(v)
+                    ok = want <= options and sel is not None and bool(sel) and sel <= want
                 if not ok:
-                    wrong.append((norm(v), conds_text(st.conds)))
+                    wrong.append((norm(v)[:160], conds_text(st.conds)[:200]))
+    rep.floor("cli_options_forwarded", len(got), 3)
     wants = {"document_source": "the `url` or the `path` option", "config_file": "ConfigFile.load_from_path(path=config_path) | ConfigFile() when no config_path"}
     for name, wrong in got.items():
-        rep.check(not wrong, "R16.1", f"cli._process_config::{name}", "value modified between the CLI and Config", where(pc, hits[0][1]),
-                  lhs=wrong or wants.get(name, name), rhs=wants.get(name, name))
-    re_assigned = sorted({x.id for n in ast.walk(pc.node) if isinstance(n, (ast.Assign, ast.AugAssign, ast.AnnAssign))
-                          for t in (n.targets if isinstance(n, ast.Assign) else [n.target]) for x in ast.walk(t)
-                          if isinstance(x, ast.Name) and x.id in pparams})
-    rep.check(not re_assigned, "R16.1", "cli._process_config::parameters-not-rebound", f"CLI values {re_assigned} are rebound before reaching Config",
-              where(pc, pc.node), lhs=re_assigned, rhs=[])
+        want = wants.get(name, " | ".join(_CLI_OPTION_OF.get(name, (name,))))
+        rep.check(not wrong, "R16.1", f"cli.generate::{name}", "value modified between the CLI option and Config", where(cg, cg.node),
+                  lhs=wrong[:4] or want, rhs=want)
 
 
 def _bind_call(call: ast.Call, callee: Any) -> dict[str, ast.AST]:
@@ -983,7 +1103,7 @@ class State:
         return State(dict(self.env), self.conds + tuple(extra))
 
 
-def substitute(e: ast.AST, env: dict[str, ast.AST]) -> ast.AST:
+def _subst_names(e: ast.AST, env: dict[str, ast.AST]) -> ast.AST:
     """e with every local `x` / attribute cell `x.attr` that env knows replaced by its value"""
     import copy
 
@@ -1002,6 +1122,57 @@ def substitute(e: ast.AST, env: dict[str, ast.AST]) -> ast.AST:
             return self.generic_visit(n)
 
     return S().visit(copy.deepcopy(e))
+
+
+def _bind_comprehensions(e: ast.AST) -> ast.AST:
+    """every variable of a comprehension / generator expression read as what it stands for, exactly as the target of a `for` statement
+    is: `x` of `for x in ITER` is `ITER[*]`, the i-th name of a tuple target `ITER[*][i]`, a name bound by `:=` in a filter is the value
+    bound.  What a comprehension computes is then written in terms of what it iterates, however its variables are called.  (e is
+    modified in place: it is a private copy.)"""
+
+    class T(ast.NodeTransformer):
+        def _comp(self, n: Any) -> ast.AST:
+            env: dict[str, ast.AST] = {}
+
+            def part(x: ast.AST) -> ast.AST:
+                return self.visit(_subst_names(x, env) if env else x)
+
+            for g in n.generators:
+                g.iter = part(g.iter)
+                if isinstance(g.target, ast.Name):
+                    env[g.target.id] = _element(g.iter)
+                elif isinstance(g.target, (ast.Tuple, ast.List)) and all(isinstance(x, ast.Name) for x in g.target.elts):
+                    for i, x in enumerate(g.target.elts):
+                        env[x.id] = _element(g.iter, i)
+                else:
+                    for x in ast.walk(g.target):
+                        if isinstance(x, ast.Name):
+                            env.pop(x.id, None)
+                ifs = []
+                for c in g.ifs:
+                    c = part(c)
+                    for w in ast.walk(c):
+                        if isinstance(w, ast.NamedExpr) and isinstance(w.target, ast.Name):
+                            env[w.target.id] = w.value
+                    ifs.append(c)
+                g.ifs = ifs
+            for fld in ("elt", "key", "value"):
+                if hasattr(n, fld):
+                    setattr(n, fld, part(getattr(n, fld)))
+            return n
+
+        visit_ListComp = visit_SetComp = visit_GeneratorExp = visit_DictComp = _comp
+
+    return T().visit(e)
+
+
+def substitute(e: ast.AST, env: dict[str, ast.AST]) -> ast.AST:
+    """e in terms of the inputs: every local `x` / attribute cell `x.attr` that env knows replaced by its value, every comprehension
+    variable by the element of what it iterates"""
+    out = _subst_names(e, env)
+    if any(isinstance(n, ast.comprehension) for n in ast.walk(out)):
+        out = _bind_comprehensions(out)
+    return out
 
 
 def _cell(t: ast.AST) -> str | None:
@@ -1050,6 +1221,8 @@ class SymExec:
         self.recorded: list[ast.AST] | None = [] if record else None  # every expression a statement evaluates (tests included), substituted
         self.hits: list[tuple[tuple[Cond, ...], ast.Call, Any]] = []  # (path condition, watched call with locals substituted, function)
         self.exits: list[tuple[State, ast.AST]] = []                  # of the outermost function: (final state, returned value)
+        self.hit_env: dict[int, dict[str, ast.AST]] = {}              # id(watched call) -> what the locals held where it was met
+        self._helpers: dict[str, dict[str, Any]] = {}
 
     def run(self, f: Any, bound: dict[str, ast.AST] | None = None, conds: tuple[Cond, ...] = (), depth: int = 0) -> list[tuple[tuple[Cond, ...], ast.AST]]:
         """(path condition, returned value) of every path that returns"""
@@ -1062,13 +1235,29 @@ class SymExec:
 
     # -- values ---------------------------------------------------------------------------------------------------------------------
     def _helper(self, call: ast.AST, f: Any) -> Any:
+        """the function a call in f executes as part of f's own work: a function defined inside f (or inside a function that encloses f)
+        called by its plain name, or a private helper of f's module / class"""
         if not isinstance(call, ast.Call):
             return None
-        last = call_name(call).rsplit(".", 1)[-1]
-        return next((h for h in region(self.ix, f, 1)[1:] if h.name == last), None)
+        known = self._helpers.get(f.qual)
+        if known is None:
+            known = {}
+            scopes, g = set(), f
+            while g is not None:
+                scopes.add(g.qual)
+                g = g.parent
+            for h in self.ix.all_functions:
+                if h.parent is not None and h.parent.qual in scopes and h.qual not in scopes:
+                    known.setdefault(h.name, h)
+            for h in region(self.ix, f, 1)[1:]:
+                known.setdefault("." + h.name, h)
+            self._helpers[f.qual] = known
+        cn = call_name(call)
+        return (known.get(cn) if "." not in cn else None) or known.get("." + cn.rsplit(".", 1)[-1])
 
     def values(self, v: ast.AST, s: State, f: Any, depth: int) -> list[tuple[State, ast.AST]]:
-        """the (already substituted) value, a call to a private helper of f replaced by what the helper returns on each of its paths"""
+        """the (already substituted) value, a call to a helper of f (private function / method, closure) replaced by what the helper
+        returns on each of its paths"""
         h = self._helper(v, f)
         if h is None or depth >= self.inline_depth or any(isinstance(a, ast.Starred) for a in v.args) or any(k.arg is None for k in v.keywords):
             return [(s, v)]
@@ -1077,7 +1266,16 @@ class SymExec:
         if h.kind in ("method", "classmethod"):
             names = names[1:]
         allpos = [*a.posonlyargs, *a.args]
-        bound: dict[str, ast.AST] = {p.arg: d for p, d in zip(allpos[len(allpos) - len(a.defaults):], a.defaults)}
+        bound: dict[str, ast.AST] = {}
+        outer: set[str] = set()
+        if h.parent is not None:
+            # a closure reads the variables of the function it is defined in as they are when it is called; its own parameters and
+            # locals hide them, names it declares `nonlocal` are the enclosing function's and are unknown there after the call
+            outer = {x for n in ast.walk(h.node) if isinstance(n, (ast.Nonlocal, ast.Global)) for x in n.names}
+            own = (_touched(h.node.body) | {p.arg for p in h.params}) - outer
+            own = {c.split(".", 1)[0] for c in own if "." not in c}
+            bound = {k: val for k, val in s.env.items() if k.split(".", 1)[0] not in own}
+        bound.update({p.arg: d for p, d in zip(allpos[len(allpos) - len(a.defaults):], a.defaults)})
         bound.update({p.arg: d for p, d in zip(a.kwonlyargs, a.kw_defaults) if d is not None})
         bound.update(_bind_call(v, h))
         for n in names:
@@ -1085,7 +1283,13 @@ class SymExec:
         if h.kind == "method" and f.kind == "method" and isinstance(v.func, ast.Attribute) and norm(v.func.value) == f.params[0].arg:
             # the same object: what the caller knows about its attributes holds in the helper
             bound.update({f"{h.params[0].arg}.{k.split('.', 1)[1]}": val for k, val in s.env.items() if k.startswith(f.params[0].arg + ".")})
-        return [(State(dict(s.env), c), rv) for c, rv in self.run(h, bound, s.conds, depth + 1)]
+        out = []
+        for c, rv in self.run(h, bound, s.conds, depth + 1):
+            s2 = State(dict(s.env), c)
+            for cell in outer & _touched(h.node.body):
+                self._forget(s2, cell)
+            out.append((s2, rv))
+        return out
 
     # -- statements -----------------------------------------------------------------------------------------------------------------
     def _block(self, body: list[ast.stmt], states: list[State], rets: list, f: Any, depth: int) -> list[State]:
@@ -1103,7 +1307,9 @@ class SymExec:
             return
         for n in walk_own(st):
             if isinstance(n, ast.Call) and self.watch(n):
-                self.hits.append((s.conds, substitute(n, s.env), f))
+                call = substitute(n, s.env)
+                self.hits.append((s.conds, call, f))
+                self.hit_env[id(call)] = s.env
 
     def _forget(self, s: State, cell: str) -> None:
         s.env[cell] = _unknown()
@@ -1286,6 +1492,12 @@ def _atoms(e: ast.AST, out: list) -> None:
         a = _leaf(e)[0]
         if a not in out:
             out.append(a)
+
+
+def _atoms_of(e: ast.AST) -> list:
+    out: list = []
+    _atoms(e, out)
+    return out
 
 
 def _holds(e: ast.AST, asg: dict) -> bool:
